@@ -2,6 +2,7 @@ package vc
 
 import (
 	"fmt"
+	"sort"
 	"go/types"
 	"strings"
 
@@ -110,8 +111,11 @@ func (fc *FnCtx) call(instr ssa.Instruction, c *ssa.CallCommon, st *State, g *sm
 	for _, a := range c.Args {
 		args = append(args, fc.val(a))
 	}
-	fc.callOrd[name]++
-	ord := fc.callOrd[name]
+	ord, okOrd := fc.staticOrd[instr]
+	if !okOrd || fc.staticName[instr] != name {
+		fc.callOrd[name]++
+		ord = fc.callOrd[name] + 1000 // dynamically resolved callee: not addressable by ordinal
+	}
 	// call-site assertions (before)
 	fc.callAsserts(name, ord, true, args, nil, c, instr, st, g, where)
 
@@ -192,7 +196,9 @@ func (fc *FnCtx) callAsserts(name string, ord int, before bool, args []Val, res 
 		if !before {
 			kind = "assert@after"
 		}
-		fc.oblige(kind, ca.Clause.Label, ca.Clause.Tags, g, ec.boolean(ca.Clause.E), where, ca.Clause.Text)
+		goal := ec.boolean(ca.Clause.E)
+		fc.oblige(kind, ca.Clause.Label, ca.Clause.Tags, g, goal, where, ca.Clause.Text)
+		fc.assume(g, goal, "asserted above: "+ca.Clause.Text)
 		fc.usedCallAssert[ca.Clause.Label+ca.Clause.Text] = true
 	}
 }
@@ -314,6 +320,10 @@ func (fc *FnCtx) applyContract(cs *spec.FuncSpec, name string, args []Val, resT 
 	for _, e := range cs.Ensures {
 		ec := &evalCtx{fc: fc, vars: vars, cur: st, old: pre, assumeMode: true}
 		fc.assume(g, ec.boolean(e.E), "ensures of "+name+": "+e.Text)
+	}
+	for _, e := range cs.Defines {
+		ec := &evalCtx{fc: fc, vars: vars, cur: st, old: pre, assumeMode: true}
+		fc.assume(g, ec.boolean(e.E), "definition by "+name+": "+e.Text)
 	}
 	return res
 }
@@ -669,5 +679,55 @@ func (fc *FnCtx) ownershipHavoc(pre, st *State) {
 			}
 			m[k] = true
 		}
+	}
+}
+
+// callOrdinals numbers the call sites of each callee in source order (by
+// position), so that assert@call(callee#k) does not depend on the order in
+// which the generator visits blocks.
+func (fc *FnCtx) callOrdinals() {
+	fc.staticOrd = map[ssa.Instruction]int{}
+	fc.staticName = map[ssa.Instruction]string{}
+	type site struct {
+		in   ssa.Instruction
+		name string
+		pos  int
+		seq  int
+	}
+	var sites []site
+	n := 0
+	for _, b := range fc.Fn.Blocks {
+		for _, in := range b.Instrs {
+			c, ok := in.(*ssa.Call)
+			if !ok {
+				continue
+			}
+			var name string
+			switch {
+			case c.Call.IsInvoke():
+				name = fc.P.TypeStr(c.Call.Value.Type(), nil) + "." + c.Call.Method.Name()
+			case c.Call.StaticCallee() != nil:
+				name = fc.nameOfFn(c.Call.StaticCallee())
+			default:
+				if _, isB := c.Call.Value.(*ssa.Builtin); isB {
+					continue
+				}
+				name = fc.funcValueName(c.Call.Value)
+			}
+			n++
+			sites = append(sites, site{in, name, int(in.Pos()), n})
+		}
+	}
+	sort.SliceStable(sites, func(i, j int) bool {
+		if sites[i].pos != sites[j].pos {
+			return sites[i].pos < sites[j].pos
+		}
+		return sites[i].seq < sites[j].seq
+	})
+	cnt := map[string]int{}
+	for _, s := range sites {
+		cnt[s.name]++
+		fc.staticOrd[s.in] = cnt[s.name]
+		fc.staticName[s.in] = s.name
 	}
 }
